@@ -467,11 +467,154 @@ func (g *gen) seqno() {
 	g.finish(0)
 }
 
+// blocks: directed family for the arena block arithmetic under the value log (first block 4 KiB, then doubling; every
+// entry is value + 20-byte header).  Committed data fills the log close to a block boundary, a stage is opened, staged
+// values spill into the next block(s), and exactly those keys are read through every snapshot path, the value history
+// and the stage inspection — before and after nested stages, release, cleanup, checkpoint/revert.  The model knows
+// nothing about blocks: it predicts the values, any address comparison that goes wrong across blocks shows up.
+func (g *gen) blocks(variant int) {
+	r := g.r
+	g.startCase("blocks", "reset")
+	key := func(i int) string { return fmt.Sprintf("62%02x", i) }
+	val := func(n int) string { return fmt.Sprintf("%02x*%d", 0xa0+r.Intn(6), n) }
+	probe := func(keys []int) {
+		// the property op first: a snapshot that shows staged data is then reported as a concrete failing input
+		g.do("snapchk")
+		for _, i := range keys {
+			k := key(i)
+			g.do("sget " + k)
+			g.do("gsget " + k)
+			g.do("get " + k)
+			g.do("hist " + k + " any")
+			g.do("hist " + k + " never")
+			g.do("hist " + k + " len 2")
+		}
+		g.do("siter - -")
+		g.do("sriter - -")
+		g.do("gsiter - - 0")
+		g.do("gsiter - - 1")
+		g.do("gsrange - - 0")
+		if d := g.depth(); d > 0 {
+			g.do("inspect " + strconv.Itoa(d))
+			g.do("inspect 1")
+		}
+	}
+	// 1. committed part: end of the log at `fill` bytes (boundaries at 4096, 4096+8192, …)
+	boundary := []int{4096, 12288, 28672}[variant%3]
+	if !g.run.Thorough() && variant%3 == 2 {
+		boundary = 4096
+	}
+	slack := []int{0, 1, 21, 22, 40, 100, 300, 1000}[r.Intn(8)] // bytes left in the block when the stage is opened
+	fill := boundary - slack
+	if variant%3 > 0 {
+		fill = boundary - 4096 - slack // the committed part ends well inside an earlier block for the higher boundaries
+		if r.Bool() {
+			fill = boundary - slack
+		}
+	}
+	used := 0
+	n := 0
+	for used+22 <= fill && n < 40 {
+		sz := 900 + r.Intn(200)
+		if used+sz+20 > fill {
+			sz = fill - used - 20
+		}
+		if sz < 1 {
+			break
+		}
+		g.do("set " + key(n) + " " + val(sz))
+		used += sz + 20
+		n++
+	}
+	committed := n
+	if r.Chance(30) {
+		g.do("checkpoint")
+	}
+	g.do("staging")
+	// 2. staged part: small and large values, new keys and overwrites (same length and different length) of committed keys
+	var touched []int
+	stagedBytes := 0
+	want := slack + 200 + r.Intn(3000)
+	if variant%3 > 0 && r.Bool() {
+		want = slack + 5000 + r.Intn(6000)
+	}
+	for stagedBytes < want {
+		i := r.Intn(committed + 6)
+		sz := []int{1, 2, 2, 3, 30, 200, 1000}[r.Intn(7)]
+		switch r.Intn(6) {
+		case 0:
+			g.do("del " + key(i))
+			sz = 0
+		default:
+			g.do("set " + key(i) + " " + val(sz))
+		}
+		stagedBytes += sz + 20
+		touched = append(touched, i)
+		if len(touched)%4 == 0 {
+			probe(touched[len(touched)-4:])
+		}
+	}
+	probe(touched)
+	// 3. nested stage / checkpoint on top, then unwind with probes after every step
+	if r.Bool() {
+		g.do("staging")
+		for j := 0; j < 3+r.Intn(6); j++ {
+			i := r.Intn(committed + 6)
+			g.do("set " + key(i) + " " + val([]int{2, 2, 500, 2000}[r.Intn(4)]))
+			touched = append(touched, i)
+		}
+		probe(touched)
+		if r.Bool() {
+			g.do("cleanup " + strconv.Itoa(g.depth()))
+		} else {
+			g.do("release " + strconv.Itoa(g.depth()))
+		}
+		probe(touched)
+	}
+	if r.Bool() {
+		g.do("checkpoint")
+		for j := 0; j < 4; j++ {
+			i := r.Intn(committed + 6)
+			g.do("set " + key(i) + " " + val([]int{2, 3, 700}[r.Intn(3)]))
+			touched = append(touched, i)
+		}
+		probe(touched)
+		if l := g.liveCps(); len(l) > 0 {
+			g.do("revert " + strconv.Itoa(l[len(l)-1]))
+		}
+		probe(touched)
+	}
+	if d := g.depth(); d > 0 {
+		if r.Bool() {
+			g.do("cleanup " + strconv.Itoa(d))
+		} else {
+			g.do("release " + strconv.Itoa(d))
+		}
+	}
+	probe(touched)
+	// 4. a second stage on top of what is committed now
+	g.do("staging")
+	for j := 0; j < 6; j++ {
+		i := r.Intn(committed + 6)
+		g.do("set " + key(i) + " " + val([]int{2, 2, 40, 1500}[r.Intn(4)]))
+		touched = append(touched, i)
+	}
+	probe(touched)
+	g.finish(r.Intn(2))
+}
+
 func generate(run *vx.Run, wd *world) {
 	g := &gen{run: run, wd: wd, r: vx.NewRand(run.Seed)}
 	pool := exhaustivePool()
 	g.seqno()
 	g.limits()
+	nb := 30
+	if run.Thorough() {
+		nb = 300
+	}
+	for i := 0; i < nb; i++ {
+		g.blocks(i)
+	}
 	if run.Thorough() {
 		g.exhaustive(pool, 1, "exh1")
 		g.exhaustive(pool, 2, "exh2")
